@@ -10,7 +10,9 @@ import (
 	"os"
 	"path/filepath"
 	"regexp"
+	"runtime"
 	"runtime/debug"
+	"sync"
 	"sort"
 	"strings"
 	"time"
@@ -211,6 +213,8 @@ func main() {
 // defect (workloads guard the library calls whose panics are meaningful), hence
 // an infrastructure error, never a violation.
 func execute(env *work.Env, w *work.Workload, runSeed, idx uint64, tape *core.Tape, verbose bool) (r *core.Run, infra string) {
+	watchRun(w.Name, idx, runSeed)
+	defer watchRun("", 0, 0)
 	r = core.NewRun(w.Property, w.Phase, runSeed, idx, tape, verbose)
 	func() {
 		defer func() {
@@ -408,4 +412,40 @@ func raceKey(rep string) string {
 		return "unparsed-report"
 	}
 	return strings.Join(fns, "|")
+}
+
+// ---- watchdog: real time and memory only ever produce exit 2 ------------------------
+
+var (
+	wdMu    sync.Mutex
+	wdName  string
+	wdIdx   uint64
+	wdSeed  uint64
+	wdSince time.Time
+)
+
+func watchRun(name string, idx, seed uint64) {
+	wdMu.Lock()
+	wdName, wdIdx, wdSeed, wdSince = name, idx, seed, time.Now()
+	wdMu.Unlock()
+}
+
+func init() {
+	go func() {
+		var ms runtime.MemStats
+		for {
+			time.Sleep(2 * time.Second)
+			wdMu.Lock()
+			name, idx, seed, since := wdName, wdIdx, wdSeed, wdSince
+			wdMu.Unlock()
+			if name == "" {
+				continue
+			}
+			runtime.ReadMemStats(&ms)
+			if d := time.Since(since); d > 180*time.Second || ms.HeapAlloc > 6<<30 {
+				fmt.Fprintf(os.Stderr, "vsim: WATCHDOG: workload %s run %d (seed %d) has been running for %v with %d MB of heap; giving up (infrastructure, not a violation)\n", name, idx, seed, d.Round(time.Second), ms.HeapAlloc>>20)
+				os.Exit(2)
+			}
+		}
+	}()
 }
